@@ -238,6 +238,10 @@ def run(F, R):
             R.check("C11-R3", "source-only-raised:" + (b.get("item") or b["id"].split("::")[-1]) + ":" + str(len([1 for i_ in R.instances if i_["rule"] == "C11-R3" and i_["key"].startswith("source-only-raised:")])), const_od,
                     "the pending options' source is only ever set to OnDemand", "the pending options' source is assigned %s: a request that is not on-demand can lower an on-demand check back to scheduled" % fmt_t(val)[:80], lib.loc(v_, bi))
     R.floor("C11-R3", "control arms that return to their select", n_arm, 2)
+    # "triggers the reboot *if the policy then allows it*": the reboot gate itself is C05-R5's (most recent answer was yes)
+    from . import c05 as _c05
+    from .. import report as _report
+    _c05.run(F, _report.SubsetAlias(R, {"C05-R5": "C11-R3"}, prefix="reboot-gate:", keys={"latest-answer-yes", "some-answer-yes"}))
     R.floor("C11-R3", "OnDemand upgrades", n_up, 2)
 
     # ---------------------------------------------------------------- R4 gone error
